@@ -196,6 +196,9 @@ def party(kind, uid="orcid", email="present", name="both", role=False):
         k.append(["electronicMailAddress", "a@b.org", {}, []])
     elif email == "empty":
         k.append(["electronicMailAddress", "", {}, []])
+    elif email == "present_then_empty":
+        k.append(["electronicMailAddress", "a@b.org", {}, []])
+        k.append(["electronicMailAddress", "", {}, []])
     if uid == "orcid":
         k.append(["userId", "0000-0001", {"directory": ORCID}, []])
     elif uid == "other":
@@ -205,6 +208,14 @@ def party(kind, uid="orcid", email="present", name="both", role=False):
     elif uid == "two":
         k.append(["userId", "u1", {"directory": "https://example.org/dir"}, []])
         k.append(["userId", "0000-0001", {"directory": ORCID}, []])
+    elif uid == "two_orcid_first":
+        k.append(["userId", "0000-0001", {"directory": ORCID}, []])
+        k.append(["userId", "u1", {"directory": "https://example.org/dir"}, []])
+    elif uid == "orcid_then_empty":
+        k.append(["userId", "0000-0001", {"directory": ORCID}, []])
+        k.append(["userId", "", {"directory": "https://example.org/dir"}, []])
+    elif uid == "nodir":
+        k.append(["userId", "u1", {}, []])
     if role:
         k.append(["role", "r", {}, []])
     return [kind, None, {}, k]
@@ -374,8 +385,8 @@ def dataset_product():
 
 
 def party_options():
-    for uid in ("none", "orcid", "other", "empty", "two"):
-        for email in ("none", "present", "empty"):
+    for uid in ("none", "orcid", "other", "empty", "two", "two_orcid_first", "orcid_then_empty", "nodir"):
+        for email in ("none", "present", "empty", "present_then_empty"):
             for name in ("both", "sur", "emptygiven", "org"):
                 yield dict(uid=uid, email=email, name=name)
 
@@ -556,6 +567,13 @@ def all_params(tier):
     return out
 
 
+def _baseline_errors(_):
+    base_root = witness.build(build({}))
+    errs = []
+    validate.tree(base_root, errs)
+    return [("e", e[1]) for e in errs]
+
+
 def replay(case):
     if case["kind"] == "parametric":
         return check(build(case["params"]), case)
@@ -577,11 +595,8 @@ def explore(tier):
         items.append(("base", (label, spec, d)))
     accs = core.pmap(work, items)
     acc = core.merge_all(accs)
-    # validity of the baseline (reported, not required by the oracle)
-    core.reset_store()
-    base_root = witness.build(build({}))
-    errs = []
-    validate.tree(base_root, errs)
+    # validity of the baseline (reported, not required by the oracle); run in a child like everything else
+    errs = core.run_isolated(_baseline_errors, None)
     n = acc.counts.get("trees", 0)
     codes = sorted(k[5:] for k in acc.outcomes if k.startswith("code:"))
     cov = {
